@@ -23,6 +23,7 @@ func init() {
 			{ID: "C11.R3", Text: "never stops the client: balancing←true dominates Close(false); close(stopCh) only under ¬balancing; Open precedes balancing←false in the timer function", Run: c11r3},
 			{ID: "C11.R4", Text: "lock hand-off: Lock is followed on every path by exactly one AfterFunc(reopen); the reopen function defers Unlock before anything else", Run: c11r4},
 			{ID: "C11.R5", Text: "fresh reopen: Open calls VBucketDiscovery.Get and Checkpoint.Load on every path; AfterFunc delay is const 0 ⇔ membership type == dynamic, else RebalanceDelay", Run: c11r5},
+			{ID: "C11.R8", Text: "closed once: the stream close covers every assigned vBucket (same rule as C13.R8)", Run: closeAllRange},
 			{ID: "C11.R6", Text: "a repeated membership causes no notification (same rule as C10.R1)", Run: c10r1},
 			{ID: "C11.R7", Text: "the bus listener subscribed by the client calls Stream.Rebalance on every path (no notification is dropped while closed or reopening)", Run: c11r7},
 		},
@@ -294,6 +295,9 @@ func c11r5(c *Ctx, id string) {
 	w := c.W
 	sf := streamLifecycle(c, id)
 	c.see(sf.open)
+	// the discovery recomputes the range from the membership in effect on every call (no cache): same rules as C09.R2, C09.R3
+	c09r2(c, id)
+	c09r3(c, id)
 	for _, m := range []struct{ iface, method string }{{"VBucketDiscovery", "Get"}, {"Checkpoint", "Load"}} {
 		var call ssa.Instruction
 		allInstrs(sf.open, func(in ssa.Instruction) {
